@@ -15,5 +15,6 @@ python3-vt -c "
 import sys; sys.path.insert(0, '.')
 from mirsmt import native
 print('native replay build', native.build())
+print('native zarr replay build', native.build_zarr())
 "
 echo setup done
